@@ -1222,6 +1222,12 @@ Error JitAllocator::write(Span& span, WriteFunc write_fn, void* user_data, VirtM
   if (span.size() != size) {
     // OK, this is a bit awkward... However, shrink wants the original span and new_size, so we have to swap.
     std::swap(span._size, size);
+    if (size == 0) {
+      // Truncated to nothing: same as `shrink(span, 0)` - the span must be released, not shrunk to an empty area.
+      Error err = release(span.rx());
+      span = Span{};
+      return err;
+    }
     return JitAllocatorImpl_shrink(static_cast<JitAllocatorPrivateImpl*>(_impl), span, size, true);
   }
 
